@@ -38,6 +38,15 @@ static int depth;
 
 static void exec_op(const char *, int);
 
+/* what a signal handler that wants the loop to stop does (events.h: events_interrupt may be called from a signal handler) */
+static void
+sig_interrupt(void)
+{
+
+	events_interrupt();
+	vt_begin("interrupt"); vt_int("ctx", 0); vt_bool("sig", 1); vt_end();
+}
+
 static int
 callback(void * cookie)
 {
@@ -172,6 +181,10 @@ exec_op(const char * l, int ctx)
 	} else if (strcmp(op, "interrupt") == 0) {
 		events_interrupt();
 		vt_begin("interrupt"); vt_int("ctx", ctx); vt_end();
+	} else if (strcmp(op, "sigintr") == 0 && ctx == 0) {
+		/* sigintr MODE: a signal handler calls events_interrupt() while the next run is inside its first poll(2) */
+		fk_sig_fn = sig_interrupt;
+		fk_sig_armed = (a == 2) ? 2 : 1;
 	} else if (strcmp(op, "env") == 0) {
 		/* env FD FLAGS(mask) */
 		fk_set_ready((int)a, (int)b);
@@ -193,6 +206,7 @@ exec_op(const char * l, int ctx)
 		int rc, spin = (op[0] == 's');
 		vt_begin("run_call"); vt_bool("spin", spin); FK_CLOCK("c", fk_clock_us); vt_end();
 		rc = spin ? events_spin(&spin_done) : events_run();
+		fk_sig_armed = 0;
 		vt_begin("run_ret"); vt_int("rc", rc); FK_CLOCK("c", fk_clock_us); common(); vt_end();
 	}
 }
